@@ -120,6 +120,7 @@ var errC19Injected = errors.New("verif: injected etcd transaction failure")
 type c19KV struct {
 	clientv3.KV
 	fail   *atomic.Bool
+	delay  atomic.Int64 // slow etcd: every lease transaction of A takes this many milliseconds longer (tproduce / cacquire)
 	mu     sync.Mutex
 	armed  bool // park the caller right after its next lease transaction has executed
 	parked chan struct{}
@@ -157,6 +158,9 @@ func (t *c19Txn) If(cs ...clientv3.Cmp) clientv3.Txn   { t.Txn = t.Txn.If(cs...)
 func (t *c19Txn) Then(ops ...clientv3.Op) clientv3.Txn { t.Txn = t.Txn.Then(ops...); return t }
 func (t *c19Txn) Else(ops ...clientv3.Op) clientv3.Txn { t.Txn = t.Txn.Else(ops...); return t }
 func (t *c19Txn) Commit() (*clientv3.TxnResponse, error) {
+	if d := t.kv.delay.Load(); d > 0 {
+		time.Sleep(time.Duration(d) * time.Millisecond)
+	}
 	if t.fail.Load() {
 		return nil, errC19Injected
 	}
@@ -221,6 +225,7 @@ type c19World struct {
 	etcdUp   atomic.Bool
 	txnFail  atomic.Bool
 	pending  chan string
+	timeout  int32 // TimeoutMillis of the produce requests (tproduce sets it for one request)
 }
 
 func c19Logger() *slog.Logger { return slog.New(slog.NewTextHandler(io.Discard, nil)) }
@@ -246,7 +251,7 @@ func (w *c19World) close() {
 }
 
 func c19New(admin *clientv3.Client, endpoint string) (*c19World, error) {
-	w := &c19World{admin: admin, endpoint: endpoint}
+	w := &c19World{admin: admin, endpoint: endpoint, timeout: 1000}
 	w.etcdUp.Store(true)
 	ctx := context.Background()
 	brokerInfo := protocol.MetadataBroker{NodeID: 1, Host: "localhost", Port: 19092}
@@ -376,7 +381,7 @@ func (w *c19World) produce(acks int16, parts []c19Part) (res string) {
 	}()
 	req := kmsg.NewPtrProduceRequest()
 	req.Acks = acks
-	req.TimeoutMillis = 1000
+	req.TimeoutMillis = w.timeout
 	var order []string
 	byTopic := map[string]*kmsg.ProduceRequestTopic{}
 	for _, p := range parts {
@@ -546,6 +551,84 @@ func (w *c19World) xproduce(acks int16, parts []c19Part) string {
 	}
 }
 
+// c19SlowMargin: how much longer than the request's timeout a lease transaction of A takes in tproduce / cacquire.
+const c19SlowMargin = 40
+
+// tproduce: a produce request whose TimeoutMillis is SHORTER than the etcd round trip of a lease acquisition (every lease
+// transaction of A takes timeout+margin ms).  The client's timeout bounds how long the client waits, not what the broker may
+// assume: a lease acquisition that has not answered yet is not a lease held.
+func (w *c19World) tproduce(acks int16, timeoutMs int, parts []c19Part) string {
+	w.aKV.delay.Store(int64(timeoutMs + c19SlowMargin))
+	w.timeout = int32(timeoutMs)
+	defer func() {
+		w.aKV.delay.Store(0)
+		w.timeout = 1000
+	}()
+	return w.produce(acks, parts)
+}
+
+// cacquire: AcquireAll called directly with a context that is done after timeoutMs (0 = already done) while every lease
+// transaction of A takes timeoutMs+margin ms.  Result per partition: the error class of its slot.
+func (w *c19World) cacquire(timeoutMs int, parts []c19Part) (res string) {
+	defer func() {
+		if r := recover(); r != nil {
+			res = "panic"
+		}
+	}()
+	w.aKV.delay.Store(int64(timeoutMs + c19SlowMargin))
+	defer w.aKV.delay.Store(0)
+	ctx, cancel := context.WithCancel(context.Background())
+	defer cancel()
+	if timeoutMs == 0 {
+		cancel()
+	} else {
+		var c2 context.CancelFunc
+		ctx, c2 = context.WithTimeout(ctx, time.Duration(timeoutMs)*time.Millisecond)
+		defer c2()
+	}
+	ids := make([]metadata.PartitionID, 0, len(parts))
+	for _, p := range parts {
+		r := c19Resources[p.r]
+		ids = append(ids, metadata.PartitionID{Topic: r.topic, Partition: r.part})
+	}
+	type out struct{ rs []metadata.AcquireResult }
+	ch := make(chan out, 1)
+	go func() {
+		defer func() {
+			if r := recover(); r != nil {
+				ch <- out{nil}
+			}
+		}()
+		ch <- out{w.a.AcquireAll(ctx, ids)}
+	}()
+	var rs []metadata.AcquireResult
+	select {
+	case o := <-ch:
+		rs = o.rs
+	case <-time.After(15 * time.Second):
+		return "hang"
+	}
+	if rs == nil && len(ids) > 0 {
+		return "panic"
+	}
+	var cs []string
+	for i, p := range parts {
+		c := "missing"
+		if i < len(rs) {
+			if rs[i].Partition != ids[i] {
+				c = "wrong-partition"
+			} else {
+				c = c19ResName(rs[i].Err)
+			}
+		}
+		cs = append(cs, fmt.Sprintf("%d=%s", p.r, c))
+	}
+	if len(rs) > len(parts) {
+		cs = append(cs, fmt.Sprintf("?extra=%d", len(rs)-len(parts)))
+	}
+	return "res=" + strings.Join(cs, ",")
+}
+
 func c19ResName(err error) string {
 	switch {
 	case err == nil:
@@ -625,6 +708,21 @@ func (w *c19World) exec(f []string) string {
 	case f[0] == "a" && len(f) == 2 && f[1] == "releaseall":
 		w.a.ReleaseAll()
 		return "-"
+	case f[0] == "tproduce" && len(f) >= 4:
+		acks, err := strconv.Atoi(f[1])
+		tmo, err2 := strconv.Atoi(f[2])
+		parts, ok := c19ParseParts(f[3:])
+		if err != nil || err2 != nil || tmo < 0 || tmo > 1000 || !ok || w.pending != nil {
+			return "bad-op"
+		}
+		return w.tproduce(int16(acks), tmo, parts)
+	case f[0] == "cacquire" && len(f) >= 3:
+		tmo, err := strconv.Atoi(f[1])
+		parts, ok := c19ParseParts(f[2:])
+		if err != nil || tmo < 0 || tmo > 1000 || !ok || w.pending != nil {
+			return "bad-op"
+		}
+		return w.cacquire(tmo, parts)
 	case f[0] == "produce" && len(f) >= 3:
 		acks, err := strconv.Atoi(f[1])
 		parts, ok := c19ParseParts(f[2:])
